@@ -1,5 +1,6 @@
 import HdVerif.Model.PixelPipeline
 import HdVerif.Proofs.RatFloor
+import HdVerif.Generated.T6h
 import Mathlib.Tactic.Ring
 import Mathlib.Tactic.Linarith
 import Mathlib.Tactic.FieldSimp
@@ -913,5 +914,50 @@ def presentOf (p : Params) (icc inverse : Bool) : Present :=
   ⟨match p.rwvm with | .none => false | _ => true,
    match p.modality with | .none => false | _ => true,
    match p.voi with | .none => false | _ => true, icc, inverse⟩
+
+/-- the shared frame loop equals reading every frame with its own transform, for uniformly placed groups -/
+theorem getWith_eq {ρ μ ω β} (im : Meta ρ μ ω) (useRw useMod useVoi : Bool) (apply : Found ρ μ ω → Nat → β)
+    (n f0 : Nat) (fs : List Nat) (h0 : f0 < n) (hfs : ∀ f ∈ fs, f < n)
+    (h1 : Uniform im.rwvm n) (h2 : Uniform im.rescale n) (h3 : Uniform im.window n) :
+    getWith im useRw useMod useVoi apply f0 fs = fs.map (getFrame im useRw useMod useVoi apply) := by
+  unfold getWith getFrame
+  simp only []
+  apply List.map_congr_left
+  intro f hf
+  have hfn := hfs f hf
+  by_cases hall : (discover im useRw useMod useVoi f0).all = true
+  · simp only [hall, ↓reduceIte]
+    suffices discover im useRw useMod useVoi f = discover im useRw useMod useVoi f0 by rw [this]
+    unfold discover at hall ⊢
+    cases hr : (if useRw then im.rwvm.find f0 else none) with
+    | some x =>
+      obtain ⟨r, sh⟩ := x
+      rw [hr] at hall
+      simp only at hall
+      have : (if useRw then im.rwvm.find f else none) = (if useRw then im.rwvm.find f0 else none) :=
+        opt_find_stable _ useRw n f f0 h1 h0 hfn (by rw [hr]; exact hall)
+      rw [this, hr]
+    | none =>
+      rw [hr] at hall
+      have hrf : (if useRw then im.rwvm.find f else none) = none := by
+        rw [opt_find_stable _ useRw n f f0 h1 h0 hfn (by rw [hr]), hr]
+      rw [hrf]
+      simp only [Bool.and_eq_true] at hall ⊢
+      rw [opt_find_stable _ useMod n f f0 h2 h0 hfn hall.1, opt_find_stable _ useVoi n f f0 h3 h0 hfn hall.2]
+  · simp [hall]
+
+/-! ### argument forwarding of the read entry points (table T6h) -/
+
+/-- the caller's options every read entry point has to hand on unchanged -/
+def forwardedOptions : List String :=
+  ["apply_real_world_transform", "real_world_value_map_selector", "apply_modality_transform", "apply_voi_transform",
+   "voi_transform_selector", "voi_output_range", "apply_presentation_lut", "apply_palette_color_lut", "apply_icc_profile"]
+
+/-- a site forwards option `o` unchanged: keyword `o = o` -/
+def siteForwards (s : CallSite) (o : String) : Bool := s.kws.contains (o, o)
+
+/-- the output type reaches the transform as `output_dtype=dtype`, the assembling helpers as `dtype=dtype` -/
+def siteForwardsDtype (s : CallSite) : Bool :=
+  if s.kind == "transform" then s.kws.contains ("output_dtype", "dtype") else s.kws.contains ("dtype", "dtype")
 
 end HdVerif.PixelPipelineLemmas
